@@ -7,7 +7,7 @@ from mirutil import (call_name_matches, provenance, bool_switch, edge_dominates,
 
 LEVEL = "other"
 EXPLANATION = (
-    "Decides three clauses of C06 from the MIR of sophia_c14n. (R6.1) the canonical N-Quads escaping table of _cnq::nq, read "
+    "Decides structural clauses of C06 from the MIR of sophia_c14n. (R6.1) the canonical N-Quads escaping table of _cnq::nq, read "
     "from the character switch: \\\" \\\\ \\n \\r \\t \\b \\f, \\u007F for DEL, and for the other C0 controls `\\u` + four UPPER-case hex "
     "digits (zero-padded, width 4, Argument::new_upper_hex), every other character pushed unchanged — compared with the "
     "table of RDFC-1.0 / RDF 1.2 canonical N-Quads held in the checker. (R6.2) the two safeguards can only fail: every read of "
@@ -15,7 +15,9 @@ EXPLANATION = (
     "message; never into hashes, paths or issuers. (R6.3) unsupported input is rejected first: the blank-predicate, quoted-triple "
     "and variable tests return Err(Unsupported) and dominate every insertion into the blank-node-to-quads map; C14nError is "
     "constructed only as Unsupported / ToxicGraph / Io / Dataset. (R6.4) panic audit of the canonicalisation functions: each "
-    "unwrap/index is auto-discharged or audited by exact key. NOT decided: equality with the W3C algorithm's output (hash inputs, "
+    "unwrap/index is auto-discharged or audited by exact key. (R6.5) in Hash N-Degree Quads every occurrence of a related blank "
+    "node is appended to Hn[hash] (the push post-dominates the related-hash computation: no de-duplication, step 3.1.2). "
+    "NOT decided: equality with the W3C algorithm's output (hash inputs, "
     "path comparison and pruning, issuer copies).")
 
 CANON = {34: '\\"', 92: "\\\\", 10: "\\n", 13: "\\r", 9: "\\t", 8: "\\b", 12: "\\f", 127: "\\u007F"}
@@ -303,8 +305,40 @@ def unsupported_rule(ck, facts):
             ck.ok("R6.3", "blank predicate / quoted triple / variable -> Err(Unsupported) before the quad is recorded")
 
 
+def related_list_rule(ck, facts):
+    """R6.5 (RDFC-1.0 Hash N-Degree Quads step 3.1.2): *every* occurrence of a related blank node is appended to Hn[hash]:
+    from the computation of the related hash, the push into the map entry is reached on every path that continues the
+    loop or leaves the function (a de-duplicating / conditional push changes the path, hence the hash)."""
+    fns = facts.find_fns(crate="sophia_c14n", name_re=r"C14nState::<'_, H, T>::hash_n_degree_quads$")
+    if len(fns) != 1:
+        ck.bad("R6.5", "R6.5@hash_n_degree_quads#anchor", "anchor-missing: hash_n_degree_quads (%d)" % len(fns))
+        return
+    fn = fns[0]
+    hs = [(bi, t) for bi, t in fn.calls() if call_name_matches(t, r"::hash_related_bnode$")]
+    pushes = []
+    for bi, t in fn.calls():
+        if call_name_matches(t, r"Vec::<T, A>::push$|Vec::<T>::push$") and comes_from_call(fn, t["args"][0], r"Entry::<'a, K, V, A>::or_default$|Entry::<'a, K, V, A>::or_insert(_with)?$|::or_default$"):
+            pushes.append(bi)
+    if len(hs) != 1 or not pushes:
+        ck.bad("R6.5", "R6.5@hash_n_degree_quads#shape", "expected one hash_related_bnode call and a push into the Hn entry "
+               "(found %d / %d)" % (len(hs), len(pushes)), fn.loc)
+        return
+    hb, ht = hs[0]
+    reach = fn.reachable(ht["to"], avoid=set(pushes))
+    escapes = [bi for bi in reach if fn.blocks[bi]["t"]["t"] == "ret"
+               or (fn.blocks[bi]["t"]["t"] == "call" and call_name_matches(fn.blocks[bi]["t"], r"iter::Iterator>?::next$|Iterator>::next$"))]
+    if escapes:
+        ck.bad("R6.5", "R6.5@hash_n_degree_quads#conditional-append",
+               "after computing the hash of a related blank node the loop can continue (bb%d) without appending the node to "
+               "Hn[hash]: RDFC-1.0 appends every occurrence (step 3.1.2), the permuted path and the N-degree hash change otherwise"
+               % sorted(escapes)[0], "%s:%s" % (ht["file"], ht["line"]))
+    else:
+        ck.ok("R6.5", "hash_n_degree_quads: every related blank node occurrence is appended to Hn[hash] (push post-dominates the hash)")
+
+
 def run(ck, facts, tier):
     facts.require_crates(["sophia_c14n"])
+    related_list_rule(ck, facts)
     escape_rule(ck, facts)
     safeguards_rule(ck, facts)
     unsupported_rule(ck, facts)
